@@ -123,7 +123,30 @@ def cli_case(rng):
     lines = []
     with cli.Scratch() as sc:
         src = sc.write("tb.export", text)
-        rc, _, err = cli.run_cli(["grammar", src, sc.path("g1"), gtype, "--dest-format", "rcg"])
+        mkv = []
+        if gtype != "treebank" and rng.random() < 0.5:
+            mkv = ["--markov"] + rng.choice([["v:1"], ["h:1"], ["v:2", "h:1"], ["nofanout", "v:1"]])
+        rc, _, err = cli.run_cli(["grammar", src, sc.path("g1"), gtype, "--dest-format", "rcg"] + mkv)
+        if rc == 0:
+            # the command line's grammar must be the API's: extract, binarize with the documented defaults (v 1, h 2)
+            with quiet():
+                from impl import treeinput
+                gA, lexA = gram.extract_all(list(treeinput.export(src, "utf-8", quiet=True)))
+                if gtype != "treebank":
+                    mo = None
+                    if mkv:
+                        from impl import misc
+                        mo = misc.options_dict(mkv[1:])
+                        mo.setdefault('v', 1)
+                        mo.setdefault('h', 2)
+                    gA = grammar.binarize(gA, reordering=REORD[gtype], markov_opts=mo)
+                grammaroutput.rcg(gA, lexA, sc.path("api"), "utf-8")
+            same_api = gram.file_lines(sc.path("api.rcg")) == gram.file_lines(sc.path("g1.rcg")) and \
+                gram.file_lines(sc.path("api.lex")) == gram.file_lines(sc.path("g1.lex"))
+            if not same_api:
+                l0 = Line("pred", "P.C09.rcg", ["f", "", "", "", ""], note="`treetools grammar %s %s` differs from the API pipeline" % (gtype, " ".join(mkv)))
+                l0.expect = "command-line-grammar-must-equal-api-grammar"
+                lines.append(l0)
         ok1 = rc == 0
         rc2, _, err2 = cli.run_cli(["grammar", sc.path("g1"), sc.path("g2"), "treebank", "--src-format", "rcg",
                                     "--dest-format", "rcg"])
@@ -151,6 +174,6 @@ def gen(seed, tier, scale):
         idx += 1
     ncli = (24 if tier == "quick" else 300) * scale
     rngs = [case_rng(seed, ID, idx + i) for i in range(ncli)]
-    for i, c in enumerate(cli.pmap(cli_case, rngs)):
-        yield idx + i, c
+    for i, r in enumerate(rngs):        # sequential: the case redirects stdout in-process
+        yield idx + i, cli_case(r)
     idx += ncli
